@@ -82,6 +82,7 @@ class PolicyOracle:
         self.newsa_seen = {}
         self.tap = None
         self.msg_idx = 0
+        self.acq_log = []         # (t, node, policy index) of every ACQUIRE a daemon was about to read
         world.monitors.append(self)
 
     def _r(self, k, n=1):
@@ -106,6 +107,8 @@ class PolicyOracle:
                         from sim.kernel import off
                         pol = dec_policy_info(raw, 16 + off('xfrm_user_acquire', 'policy'))
                         acq.append(pol['index'])
+        for i_ in acq:
+            self.acq_log.append((self.w.now, node.name, i_))
         self.cur = {'node': node.name, 'acq': acq, 'snap': snap_node(node, timers=False) if node.state == 'running' and node.controller else None,
                     'est_peers': {str(sa.peer_addr) for sa in node.ike_sas() if 10 <= int(sa.state) < 20},   # established, maybe busy
                     'any_peers': {str(sa.peer_addr) for sa in node.ike_sas()},
@@ -580,6 +583,11 @@ def run(scenario):
             orc._r('halfopen.honest_' + op.get('honest_handshake', 'none'))
             if ok:
                 orc._r('halfopen.acquire_served')
+                return
+            if not any(n_ == 'B' and t_ >= op['t'] - 5.0 - 1e-6 for (t_, n_, i_) in orc.acq_log):
+                # the traffic found an SA when it was sent (no ACQUIRE was raised); that the SA is gone by now is another story
+                # (thorough soak, seed 501039616: IKE_SA rekey answered INVALID_KE_PAYLOAD, see DESIGN 12.5)
+                orc._r('halfopen.no_acquire_was_raised')
                 return
             started = [x for x in wire.by_sender.get('B', []) if x['t'] >= op['t'] - 5.0 - 1e-9 and x['h'] is not None and not x['h']['R']
                        and x['h']['exch'] in (34, 36)]
